@@ -84,3 +84,73 @@ func CompareAndSwapUint64(addr *uint64, old, new uint64) bool {
 	sched.Op("atomic-cas", addr)
 	return atomic.CompareAndSwapUint64(addr, old, new)
 }
+
+// Int32 mirrors atomic.Int32.
+type Int32 struct{ v atomic.Int32 }
+
+func (x *Int32) Load() int32        { sched.Op("atomic-load", x); return x.v.Load() }
+func (x *Int32) Store(v int32)      { sched.Op("atomic-store", x); x.v.Store(v) }
+func (x *Int32) Add(d int32) int32  { sched.Op("atomic-add", x); return x.v.Add(d) }
+func (x *Int32) Swap(v int32) int32 { sched.Op("atomic-swap", x); return x.v.Swap(v) }
+func (x *Int32) CompareAndSwap(old, new int32) bool {
+	sched.Op("atomic-cas", x)
+	return x.v.CompareAndSwap(old, new)
+}
+
+// Int64 mirrors atomic.Int64.
+type Int64 struct{ v atomic.Int64 }
+
+func (x *Int64) Load() int64        { sched.Op("atomic-load", x); return x.v.Load() }
+func (x *Int64) Store(v int64)      { sched.Op("atomic-store", x); x.v.Store(v) }
+func (x *Int64) Add(d int64) int64  { sched.Op("atomic-add", x); return x.v.Add(d) }
+func (x *Int64) Swap(v int64) int64 { sched.Op("atomic-swap", x); return x.v.Swap(v) }
+func (x *Int64) CompareAndSwap(old, new int64) bool {
+	sched.Op("atomic-cas", x)
+	return x.v.CompareAndSwap(old, new)
+}
+
+// Uint32 mirrors atomic.Uint32.
+type Uint32 struct{ v atomic.Uint32 }
+
+func (x *Uint32) Load() uint32         { sched.Op("atomic-load", x); return x.v.Load() }
+func (x *Uint32) Store(v uint32)       { sched.Op("atomic-store", x); x.v.Store(v) }
+func (x *Uint32) Add(d uint32) uint32  { sched.Op("atomic-add", x); return x.v.Add(d) }
+func (x *Uint32) Swap(v uint32) uint32 { sched.Op("atomic-swap", x); return x.v.Swap(v) }
+func (x *Uint32) CompareAndSwap(old, new uint32) bool {
+	sched.Op("atomic-cas", x)
+	return x.v.CompareAndSwap(old, new)
+}
+
+// Uint64 mirrors atomic.Uint64.
+type Uint64 struct{ v atomic.Uint64 }
+
+func (x *Uint64) Load() uint64         { sched.Op("atomic-load", x); return x.v.Load() }
+func (x *Uint64) Store(v uint64)       { sched.Op("atomic-store", x); x.v.Store(v) }
+func (x *Uint64) Add(d uint64) uint64  { sched.Op("atomic-add", x); return x.v.Add(d) }
+func (x *Uint64) Swap(v uint64) uint64 { sched.Op("atomic-swap", x); return x.v.Swap(v) }
+func (x *Uint64) CompareAndSwap(old, new uint64) bool {
+	sched.Op("atomic-cas", x)
+	return x.v.CompareAndSwap(old, new)
+}
+
+// Bool mirrors atomic.Bool.
+type Bool struct{ v atomic.Bool }
+
+func (x *Bool) Load() bool       { sched.Op("atomic-load", x); return x.v.Load() }
+func (x *Bool) Store(v bool)     { sched.Op("atomic-store", x); x.v.Store(v) }
+func (x *Bool) Swap(v bool) bool { sched.Op("atomic-swap", x); return x.v.Swap(v) }
+func (x *Bool) CompareAndSwap(old, new bool) bool {
+	sched.Op("atomic-cas", x)
+	return x.v.CompareAndSwap(old, new)
+}
+
+// Pointer mirrors atomic.Pointer.
+type Pointer[T any] struct{ v atomic.Pointer[T] }
+
+func (x *Pointer[T]) Load() *T     { sched.Op("atomic-load", x); return x.v.Load() }
+func (x *Pointer[T]) Store(v *T)   { sched.Op("atomic-store", x); x.v.Store(v) }
+func (x *Pointer[T]) Swap(v *T) *T { sched.Op("atomic-swap", x); return x.v.Swap(v) }
+func (x *Pointer[T]) CompareAndSwap(old, new *T) bool {
+	sched.Op("atomic-cas", x)
+	return x.v.CompareAndSwap(old, new)
+}
